@@ -102,10 +102,9 @@ func (g *gen) genTwo(typ, typ2 types.Type) error {
 	p.P("// Deprecated: In favour of generics.")
 	p.P("func %s(a, b %s) %s {", name, typeStr, typeStr)
 	p.In()
-	switch typ.(type) {
-	case *types.Basic:
+	if isOrdered(typ) {
 		p.P("if a < b {")
-	default:
+	} else {
 		p.P("if %s(a, b) < 0 {", g.compare.GetFuncName(typ, typ))
 	}
 	p.In()
@@ -139,10 +138,9 @@ func (g *gen) genSlice(typ *types.Slice, typ2 types.Type) error {
 	p.P("list = list[1:]")
 	p.P("for i, v := range list {")
 	p.In()
-	switch etyp.(type) {
-	case *types.Basic:
+	if isOrdered(etyp) {
 		p.P("if v < m {")
-	default:
+	} else {
 		p.P("if %s(v, m) < 0 {", g.compare.GetFuncName(etyp, etyp))
 	}
 	p.In()
@@ -155,4 +153,11 @@ func (g *gen) genSlice(typ *types.Slice, typ2 types.Type) error {
 	p.Out()
 	p.P("}")
 	return nil
+}
+
+// isOrdered returns whether the type is a basic type that supports the < and > operators.
+// Booleans and complex numbers are basic types too, but have to go through the derived compare function.
+func isOrdered(typ types.Type) bool {
+	b, ok := typ.(*types.Basic)
+	return ok && b.Info()&types.IsOrdered != 0
 }
